@@ -360,7 +360,9 @@ func keywordAttrNames() []string {
 	return append(out, "resource.q", "span.q")
 }
 
-func universalK() *Database {
+// universalK(full): every multiset of <= 2 types per name (14 traces); otherwise the 4 single-span traces and the
+// three pairs that mix the readings (7 traces per name) - database "Kq" of the quick tier.
+func universalK(full bool) *Database {
 	type kt struct {
 		val  string
 		name string
@@ -372,6 +374,9 @@ func universalK() *Database {
 	for _, r := range keywordAttrNames() {
 		for i := range pool {
 			for j := i - 1; j < len(pool); j++ { // j == i-1: the single-span trace
+				if !full && j >= i && !((i == 0 && j == 1) || (i == 0 && j == 2) || (i == 2 && j == 3)) {
+					continue
+				}
 				id++
 				tr := Trace{TID: 0xD000 + id}
 				kinds := []int{i}
@@ -389,6 +394,9 @@ func universalK() *Database {
 				traces = append(traces, tr)
 			}
 		}
+	}
+	if !full {
+		return newDatabase("Kq", traces)
 	}
 	return newDatabase("K", traces)
 }
